@@ -36,6 +36,13 @@ static void check(dmat_t *d)
 		if ((of_mod2dense_row_is_empty(d->m, (UINT32)i) ? 1 : 0) != (w == 0)) { const char *sv = g_op; g_op = "row_is_empty"; vio("row_is_empty(%d) disagrees (weight %d)", i, w); g_op = sv; return; }
 		/* padding bits beyond n_cols stay clear: of_hweight_array over the stored words must equal the weight */
 		if ((int)of_hweight_array((UINT32 *)d->m->row[i], d->C) != w) { const char *sv = g_op; g_op = "hweight_array"; vio("of_hweight_array(row %d) != %d", i, w); g_op = sv; return; }
+		/* weight of the row without its first whole words (the form the ML tools use): every word offset, so that
+		 * the counted span starts at both 8-byte-aligned and 4-mod-8 addresses with odd and even word counts */
+		for (int ign = 0; ign < d->C; ign += 32) {
+			int wi = 0; for (int j = ign; j < d->C; j++) wi += d->M[i][j];
+			int got = (int)of_mod2dense_row_weight_ignore_first(d->m, (UINT32)i, (UINT32)ign);
+			if (got != wi) { const char *sv = g_op; g_op = "row_weight_ignore_first"; vio("row_weight_ignore_first(row %d, ignore %d) = %d, model %d (%dx%d)", i, ign, got, wi, d->R, d->C); g_op = sv; return; }
+		}
 	}
 	for (int j = 0; j < d->C; j++) {
 		int w = 0; for (int i = 0; i < d->R; i++) w += d->M[i][j];
@@ -106,11 +113,15 @@ static void popcounts(rng_t *r, long nrand)
 		if (of_hweight32(w) != want || of_hweight32_table(w) != want || of_hweight32_naive(w) != want) { rep_viol("dense-model:of_hweight32", "w=0x%x", w); return; }
 		if ((unsigned)of_popcount_3(x) != (unsigned)__builtin_popcountll(x)) { rep_viol("dense-model:of_popcount_3", "x=0x%llx", (unsigned long long)x); return; }
 	}
-	/* of_hweight_array on bit strings of every length 1..200 (padding bits clear) */
-	for (int bits = 1; bits <= 200; bits++) {
-		UINT32 arr[8] = { 0 }; unsigned want = 0;
-		for (int b = 0; b < bits; b++) if (rng_below(r, 2)) { arr[b / 32] |= 1u << (b % 32); want++; }
-		if (of_hweight_array(arr, bits) != want) { rep_viol("dense-model:of_hweight_array", "bits=%d got %u want %u", bits, of_hweight_array(arr, bits), want); return; }
+	/* of_hweight_array on bit strings of every length 1..320 (padding bits clear), starting at every word offset
+	 * of an 8-byte-aligned buffer: rows of a dense matrix with an odd number of words start at 4-mod-8 addresses */
+	for (int off = 0; off < 4; off++) for (int bits = 1; bits <= 320; bits++) {
+		static uint64_t store[10]; UINT32 *arr = (UINT32 *)store + off; unsigned want = 0;
+		memset(store, 0, sizeof store);
+		for (int b = 0; b < bits; b++) if (rng_below(r, 2) || b == bits - 1) { arr[b / 32] |= 1u << (b % 32); want++; }
+		unsigned got = of_hweight_array(arr, bits);
+		if (got != want) { rep_viol("dense-model:of_hweight_array", "bits=%d word-offset=%d got %u want %u", bits, off, got, want); return; }
+		g_ops++;
 	}
 	g_ops += 65536 * 2 * 4 + (uint64_t)nrand * 4;
 }
